@@ -29,6 +29,13 @@ ExpectedM == LET e == O!Expected(hist) IN
              IF "word-diff" \in Modes THEN [i \in DOMAIN e |-> IF e[i].t \in O!BodyC THEN O!Row("raw", e[i].k, <<>>) ELSE e[i]] ELSE e
 RowsOnceInOrder == O!SameRowsOpt(ExpectedM, Final) \/ Cex("RowsOnceInOrder")
 
+\* C14: a renamed binary file with changes is reported as binary - by its header or by its "Binary files" line
+BinReported == (\A k \in DOMAIN hist :
+                  (hist[k].c = "binary" /\ O!SecStart(hist, k) > 0 /\ hist[O!SecStart(hist, k)].kd = "renbin") =>
+                    \E i \in DOMAIN Final : \/ (Final[i].t = "raw" /\ Final[i].k = k)
+                                             \/ (Final[i].t = "fileHdr" /\ Final[i].k = O!SecStart(hist, k) /\ Final[i].d # <<>> /\ Final[i].d[5]))
+               \/ Cex("BinReported")
+
 \* C15: every hunk line is highlighted in the language its own file's name selects
 LanguageByName == O!LanguageByName(hist, I!Finish(s).sy) \/ Cex("LanguageByName")
 
